@@ -28,17 +28,37 @@ class Result:
         return '<Result %s by %s in %.2fs>' % (self.status, self.solver, self.secs)
 
 
-def _uses_strings(assertions):
+_STRING_USE = {}      # ast id of a top-level assertion -> (assertion kept alive, bool); ids are stable while the term lives
+
+
+def _assertion_uses_strings(a):
+    key = a.get_id()
+    hit = _STRING_USE.get(key)
+    if hit is not None and hit[0].eq(a):
+        return hit[1]
     seen = set()
-    todo = list(assertions)
+    todo = [a]
+    found = False
     while todo:
         e = todo.pop()
-        if e.get_id() in seen:
+        i = e.get_id()
+        if i in seen:
             continue
-        seen.add(e.get_id())
+        seen.add(i)
         if z3.is_seq(e) or z3.is_re(e):
-            return True
+            found = True
+            break
         todo.extend(e.children())
+    if len(_STRING_USE) > 200000:
+        _STRING_USE.clear()
+    _STRING_USE[key] = (a, found)
+    return found
+
+
+def _uses_strings(assertions):
+    for a in assertions:
+        if _assertion_uses_strings(a):
+            return True
     return False
 
 
